@@ -122,7 +122,7 @@ class C15(PropertyCheck):
         toks = case.line.split()
         kind = toks[0]
         if impl_out in ("PANIC", "ABORT", "TIMEOUT") or impl_out.startswith("MISSING"):
-            if kind != "packparse":
+            if kind not in ("packparse", "packparsebig"):
                 return "%s: %s" % (kind, impl_out)
         if kind == "packser":
             files = packlib.parse_files_tokens(toks[1:])
@@ -157,7 +157,7 @@ class C15(PropertyCheck):
             if ot[2] != "rt=1":
                 return "parse(serialize(x)) differs from x for %d files" % n
             return None
-        if kind == "packparse":
+        if kind in ("packparse", "packparsebig"):
             return packtotal.total_oracle(case, impl_out, profile)
         return "unknown kind " + kind
 
@@ -169,7 +169,7 @@ class C15(PropertyCheck):
         if kind == "packref":
             # the verified checker must accept what the reference writer wrote, and model = implementation
             return model_out.startswith("conforms=1 ") and model_out[len("conforms=1 "):] == impl_out
-        if kind == "packparse":
+        if kind in ("packparse", "packparsebig"):
             return packtotal.total_agree(case, impl_out, model_out, profile)
         return impl_out == model_out
 
@@ -179,7 +179,7 @@ class C15(PropertyCheck):
             return len(toks) > 1
         if toks[0] == "packref":
             return len(toks) > 2
-        if toks[0] == "packparse":
+        if toks[0] in ("packparse", "packparsebig"):
             return packtotal.total_nontrivial(case, impl_out)
         return True
 
@@ -196,7 +196,7 @@ class C15(PropertyCheck):
                 nn = b"n%d" % i          # a plain ASCII name (always representable)
                 if len(n) > len(nn) and all(nn != x for x, _ in files):
                     yield Case("packser " + packlib.files_tokens(files[:i] + [(nn, b)] + files[i + 1:]), case.stream)
-        elif toks[0] == "packparse":
+        elif toks[0] in ("packparse", "packparsebig"):
             for c in packtotal.total_shrink(case):
                 yield c
         elif toks[0] == "packbig":
